@@ -942,6 +942,32 @@ func genRefDiamond(r *rng) Project {
 	return p
 }
 
+// genExampleFails: a project the checker accepts but whose Example() fails inside a
+// user type (an empty container with an `or` rule has no example), reached through
+// references - twice, or through a recursive type - so that whatever the example
+// builder keeps per type is in the middle of something when the failure unwinds it.
+// (Seeded change c09p - a pooled builder whose per-type counters stay incremented
+// after a failure - was caught by one VERIF_SEED in three before this template.)
+func genExampleFails(r *rng) Project {
+	p := Project{Kind: "jschema", Name: []string{"root", "schema.jst"}[r.n(2)]}
+	hole := r.pick([]string{`{}`, `[]`}) + ` // {or: [{type: "object"}, {type: "array"}]}`
+	switch r.n(4) {
+	case 0: // the failing type used twice
+		p.Text = "{\n  \"a\": @a,\n  \"b\": @a\n}"
+		p.Types = []TypeSpec{{"@a", "j", "{\n  \"id\": 1,\n  \"payload\": " + hole + "\n}"}}
+	case 1: // … below a recursive type
+		p.Text = "{\n  \"tree\": @a,\n  \"n\": 1\n}"
+		p.Types = []TypeSpec{{"@a", "j", "{\n  \"v\": 1,\n  \"kids\": [@a],\n  \"payload\": " + hole + "\n}"}}
+	case 2: // … two levels down, next to a sound sibling that uses the same names
+		p.Text = "{\n  \"x\": @a,\n  \"y\": @b\n}"
+		p.Types = []TypeSpec{{"@a", "j", "{\n  \"b\": @b\n}"}, {"@b", "j", "{\n  \"c\": @c,\n  \"k\": [@c]\n}"}, {"@c", "j", "{\n  \"payload\": " + hole + "\n}"}}
+	default: // a sound project over the same type names (what a later call is compared on)
+		p.Text = "{\n  \"tree\": @a,\n  \"n\": 1\n}"
+		p.Types = []TypeSpec{{"@a", "j", "{\n  \"v\": 1,\n  \"kids\": [@a]\n}"}}
+	}
+	return p
+}
+
 func genMultiBroken(r *rng) Project {
 	p := Project{Kind: "jschema", Name: []string{"root", "schema.jst"}[r.n(2)]}
 	n := 2 + r.n(3)
@@ -981,6 +1007,9 @@ func genProject(r *rng, tornPct int) Project {
 	}
 	if (r.focus == "" || r.focus == "jschema") && r.pct(3) {
 		return genRefDiamond(r)
+	}
+	if (r.focus == "" || r.focus == "jschema") && r.pct(2) {
+		return genExampleFails(r)
 	}
 	if len(corpusProjects) > 0 && (r.focus == "" || r.focus == "jschema") && r.pct(14) {
 		p := corpusProjects[r.n(len(corpusProjects))]
